@@ -57,6 +57,10 @@ def gen(tier, rng):
         ("U16x4", 200, 260, 120, 100, (40, 160, 300, 300), "conv", "Bilinear"), ("F32x2", 220, 240, 100, 90, (60, 200, 240, 200), "conv", "CatmullRom"),
         ("U8x4", 240, 300, 120, 130, (80, 180, 300, 260), "conv", "Lanczos3"), ("U8x2", 200, 300, 90, 100, (40, 200, 260, 200), "interp", "Bilinear"),
         ("U16x2", 300, 200, 150, 110, (100, 60, 400, 300), "conv", "Lanczos3"),
+        # enlargements of a detail in the right / lower part of the picture: the source offset of a pass exceeds
+        # (source extent - destination extent) along the OTHER axis
+        ("U8x4", 200, 100, 180, 240, (240, 20, 120, 120), "conv", "Bilinear"), ("U8x3", 260, 120, 130, 260, (300, 0, 200, 240), "conv", "CatmullRom"),
+        ("U16x3", 240, 100, 80, 200, (320, 0, 160, 200), "conv", "Lanczos3"), ("U8", 120, 260, 240, 130, (0, 300, 240, 200), "interp", "Bilinear"),
     ]
     for (pt, sw, sh, dw, dh, box, alg, flt) in crop_shapes:
         for alpha in ((True, False) if rz.PT[pt]["alpha"] else (False,)):
